@@ -200,10 +200,9 @@ def stepOp (b : SBag) : Op → Option SBag × String
     -- identical sites are merged: the distinct columns, each once, with its number of occurrences; the
     -- documentation leaves their order open, the reference takes increasing byte-wise lexicographic order
     -- (`patternTable`: strictly increasing, weights = multiplicities — `C13.patternTable_spec`).
-    -- An alignment without sequences has no site to merge: the implementation then reports the length 0
-    -- instead of −1 (`C01.compress_empty_not_rect`), the reference does not specify that state.
+    -- An alignment without sequences has no site to merge and stays as it is.
     if !b.isAlign then (some b, "na") else
-    if b.rows = [] then (none, "ok[_]") else
+    if b.rows = [] then (some b, "ok[_]") else
     let cols := (List.range b.length.toNat).map fun j => b.rows.filterMap fun r => r.2[j]?
     let tbl := patternTable cols
     (some { b with rows := b.rows.zipIdx.map fun (r, i) => (r.1, tbl.filterMap fun p => p.1[i]?) },
